@@ -340,6 +340,7 @@ pub fn run(ctx: &Ctx) -> Result<Evidence, String> {
     for _ in 0..ctx.tier.pick(300, 3000) {
         docs.push(gen::random_doc(&mut rng, &cfg));
     }
+    docs.extend(gen::boundary_docs());
     let n_general = docs.len();
     let u = crate::c04::universe();
     let mut pair_docs = vec![];
@@ -364,6 +365,7 @@ pub fn run(ctx: &Ctx) -> Result<Evidence, String> {
             general_q.push(render(&q, &mut Spelling::canonical()));
         }
     }
+    general_q.extend(gen::boundary_queries().iter().map(|s| s.to_string()));
     let qcfg = gen::QueryCfg::default();
     let n_rand_q = ctx.tier.pick(400, 6000);
     for _ in 0..n_rand_q {
@@ -432,7 +434,22 @@ pub fn run(ctx: &Ctx) -> Result<Evidence, String> {
             report("VecJson (ints/floats separate, ordered map, Default != null)", &got_v);
             ok = false;
         }
-        if !same(&base, &got_f) {
+        // F64Json cannot represent integers beyond 2^53 exactly: compare through the same lossy
+        // conversion of the baseline's values
+        let base_f: Result<Vec<(String, J)>, String> = base.clone().map(|v| v.into_iter().map(|(p, j)| (p, from_f64j(&to_f64j(&j)))).collect());
+        // a type that stores every number as f64 is not a faithful view of a document with
+        // integers beyond 2^53: such documents are only judged at the other implementation
+        fn has_big_int(j: &J) -> bool {
+            match j {
+                J::Num(N::Int(i)) => i.unsigned_abs() > 9007199254740991,
+                J::Arr(a) => a.iter().any(has_big_int),
+                J::Obj(o) => o.iter().any(|(_, v)| has_big_int(v)),
+                _ => false,
+            }
+        }
+        if has_big_int(&doc.j) {
+            acc.count("f64json_not_a_faithful_view_of_this_document", 1);
+        } else if !same(&base_f, &got_f) {
             report("F64Json (all numbers f64)", &got_f);
             ok = false;
         }
